@@ -186,6 +186,8 @@ def run_tlc(module, constants=None, *, init="Init", next_="Next", spec=None, inv
         if env:
             e.update({k: str(v) for k, v in env.items()})
         t0 = time.time()
+        if os.path.exists("/usr/bin/setpriv"):      # TLC must not outlive a check that is killed (e.g. by an outer `timeout`)
+            cmd = ["/usr/bin/setpriv", "--pdeathsig", "KILL"] + list(cmd)
         try:
             p = subprocess.run(cmd, cwd=tmp, env=e, stdout=subprocess.PIPE, stderr=subprocess.STDOUT,
                                timeout=timeout, text=True, errors="replace")
